@@ -855,7 +855,7 @@ def gen_seq(rng, nops_max=10):
             if na == 2 and rng.random() < 0.5:
                 a, b = sorted([rng.randint(0, ln), rng.randint(0, ln)])
                 args = [s, as_num(rng, a), as_num(rng, b)]
-            if name != "string->list" and rng.random() < 0.5:
+            if rng.random() < (0.25 if name == "string->list" else 0.5):
                 dest = rng.randint(1, P)
         elif r < 0.60:
             s = pstr()
@@ -870,6 +870,8 @@ def gen_seq(rng, nops_max=10):
             name, args = "string-length", [pstr()]
         elif r < 0.68:
             name, args = rng.choice(["string->vector", "string->list"]), [pstr()]
+            if rng.random() < 0.7:
+                dest = rng.randint(1, P)
         elif r < 0.72:
             items = [("char", rchar(rng)) for _ in range(rng.randint(0, 5))]
             if rng.random() < 0.1 and items:
@@ -881,6 +883,11 @@ def gen_seq(rng, nops_max=10):
                 if rng.random() < 0.06:
                     tail = rng.choice([("char", 0x61), 5, ("lit", [])])
                 name, args = "list->string", [("list", items, tail)]
+            # a vector / list that an earlier string->vector / string->list left in the pool
+            held = [i for i, v in enumerate(o.pool)
+                    if isinstance(v, tuple) and v[0] == ("vec" if name == "vector->string" else "list")]
+            if held and rng.random() < 0.9:
+                args = [("pool", rng.choice(held))]
             if tail_free(args[0]) and rng.random() < 0.6:
                 dest = rng.randint(1, P)
         elif r < 0.76:
